@@ -257,4 +257,50 @@ def resolveBlocks (t : SymTable) : List BlockMsg → Option (List BlockContent)
       | some c => (resolveBlocks (t ++ m.symbols) ms).map (c :: ·)
     else none
 
+/-! ### Authorizer snapshots (`SerializePolicies` / `LoadPolicies`, authorizer.go:324-470) -/
+
+def policyKindCode : PolicyKind → Nat
+  | .allow => 0 | .deny => 1
+
+def policyKindOfCode : Nat → Option PolicyKind
+  | 0 => some .allow | 1 => some .deny | _ => none
+
+def internPolicy (t : SymTable) (p : Policy) : SymTable × IPolicy :=
+  let r := internRules t p.queries
+  (r.1, { kind := policyKindCode p.kind, queries := r.2 })
+
+def internPolicies (t : SymTable) : List Policy → SymTable × List IPolicy
+  | [] => (t, [])
+  | p :: ps =>
+    let x := internPolicy t p
+    let xs := internPolicies x.1 ps
+    (xs.1, x.2 :: xs.2)
+
+/-- What `SerializePolicies` writes for an authorizer whose facts, then rules were added
+to a fresh authorizer: world facts and rules at index level, checks and policies interned
+through the same table, the whole table, version 3. -/
+def buildSnapshotMsg (snap : Snapshot) : PoliciesMsg :=
+  let f := internFacts [] snap.facts
+  let r := internRules f.1 snap.rules
+  let c := internChecks r.1 snap.checks
+  let p := internPolicies c.1 snap.policies
+  { symbols := p.1, version := some 3, facts := f.2, rules := r.2, checks := c.2, policies := p.2 }
+
+def resolvePolicy (t : SymTable) (p : IPolicy) : Option Policy := do
+  let k ← policyKindOfCode p.kind
+  let qs ← p.queries.mapM (resolveRule t)
+  pure { kind := k, queries := qs }
+
+/-- What `LoadPolicies` reads into a fresh authorizer (its base table is empty, so the
+saved table is adopted as is; a saved table with a default symbol or a duplicate would be
+re-indexed by `Extend`, so it is rejected here). -/
+def resolveSnapshot (m : PoliciesMsg) : Option Snapshot := do
+  if m.version ≠ some 3 then none
+  if !freshSymbols [] m.symbols then none
+  let facts ← m.facts.mapM (resolveFact m.symbols)
+  let rules ← m.rules.mapM (resolveRule m.symbols)
+  let checks ← m.checks.mapM (resolveCheck m.symbols)
+  let policies ← m.policies.mapM (resolvePolicy m.symbols)
+  pure { facts := facts, rules := rules, checks := checks, policies := policies }
+
 end Biscuit
